@@ -211,6 +211,7 @@ func authzConfigs(r *rng, n int) []proxyCfg {
 		{AllowedGroups: []string{"qa", "admins"}},
 		{AllowedGroups: []string{"dev"}, EmailDomains: []string{"example.com"}, Redis: true, SkipJwtBearer: true},
 		{CookieRefresh: time.Hour},
+		{CookieRefresh: time.Hour, Redis: true},
 		{CookieName: "sess", CookiePath: "/", CookieSecure: true, CookieHTTPOnly: true, CookieSameSite: "lax", CookieDomains: []string{".example.com"}},
 	}
 	out := append([]proxyCfg(nil), base...)
@@ -338,7 +339,7 @@ func splitRule(rule string) (method string, negate bool, re string) {
 
 func init() {
 	registerSuite("e2e-authz", func(c *suiteCtx) {
-		cfgs := authzConfigs(c.rng.fork(), 16+4*(c.scale-1))
+		cfgs := authzConfigs(c.rng.fork(), 17+4*(c.scale-1))
 		u := defaultUser()
 		for ci, cfg := range cfgs {
 			if cfg.InjectRequest == nil {
@@ -354,7 +355,7 @@ func init() {
 			eps := e.endpoints()
 			for _, cr := range creds {
 				for ei, ep := range eps {
-					if c.scale == 1 && ci >= 16 && (ei+ci)%2 == 0 {
+					if c.scale == 1 && ci >= 17 && (ei+ci)%2 == 0 {
 						continue
 					}
 					h := http.Header{}
@@ -415,7 +416,7 @@ func init() {
 			}
 			// a signed-out session is no credential: with a server-side store and a refresh between login and sign-out, no
 			// cookie the browser ever held is honoured after the sign-out answered with its success redirect
-			if cfg.Redis && ci < 12 {
+			if cfg.Redis && (ci < 12 || cfg.CookieRefresh > 0) {
 				b := newBrowser()
 				if lr := e.login(b, u, "/"); lr.OK {
 					first := b.cookieHeader()
